@@ -5,9 +5,9 @@
 # and must be removed by the caller when all seeds are verified:  git -C /repo worktree remove --force /tmp/seedverify
 set -u
 SD=$(readlink -f "$1")
-WT=/tmp/seedverify
+WT=${SEEDVERIFY_WT:-/tmp/seedverify}
 LOG=$SD/verify.log
-exec 9>/tmp/seedverify.lock; flock 9
+exec 9>/tmp/seedverify.$(basename $WT).lock; flock 9
 if [ ! -d $WT ]; then git -C /repo worktree add -f $WT HEAD -q || exit 3; fi
 git -C $WT checkout -q --detach $(git -C /repo rev-parse HEAD) 2>/dev/null; git -C $WT checkout -- . ; git -C $WT clean -fdq -e _build
 [ -d $WT/_build ] || cmake -G Ninja -S $WT -B $WT/_build -DPISTACHE_BUILD_TESTS=ON -DCMAKE_BUILD_TYPE=RelWithDebInfo >/dev/null 2>&1
